@@ -618,9 +618,11 @@ def concrete_eval(t, env):
         v = concrete_eval(t[2], env)
         return None if v is None else -v
     if k == 'var':
-        return env.get(t[2])
+        return env.get(t[2].rsplit('::', 1)[-1])
     if k == 'field':
         return env.get(t[2].rsplit('::', 1)[-1])
+    if k == 'call' and not t[3]:
+        return env.get(t[1].rsplit('::', 1)[-1])       # a getter, bound by its short name
     if k == 'bin' and t[1] in ('+', '-', '*'):
         a, b = concrete_eval(t[2], env), concrete_eval(t[3], env)
         if a is None or b is None:
